@@ -64,11 +64,12 @@ def plan(tier, seed):
                     for rep in range(4):
                         items.append(["config", f, D, C, dt, comp, rep])
     items += [["flow", f, D, a, r] for f in FORMATS for D in (2, 3) for a in AXES for r in range(1 if tier == "quick" else 4)]
+    items += [["sequence", D, r] for D in (2, 3) for r in range(4 if tier == "quick" else 40)]
     return items
 
 
 def mandatory(tier):
-    return [f"format/{f}" for f in FORMATS] + [f"dtype/{d}" for d in DTYPES] + ["D/2", "D/3", "C/1", "C/2", "C/3", "compress/True", "compress/False", "flow", "sitk_reads_deepali", "deepali_reads_sitk", "meta_bytes", "header_text"]
+    return [f"format/{f}" for f in FORMATS] + [f"dtype/{d}" for d in DTYPES] + ["D/2", "D/3", "C/1", "C/2", "C/3", "compress/True", "compress/False", "flow", "sitk_reads_deepali", "deepali_reads_sitk", "meta_bytes", "header_text", "sequence", "singleton_axis", "singleton_axis/nifti/C1", "singleton_axis/other/C1"]
 
 
 class KeyCtx:
@@ -110,6 +111,8 @@ def header_close(ctx, name, g, size, origin, spacing, direction, key, **info):
 def run_item(ctx, item):
     if item[0] == "flow":
         return flow_item(ctx, *item[1:])
+    if item[0] == "sequence":
+        return sequence_item(ctx, *item[1:])
     return config_item(ctx, *item[1:])
 
 
@@ -125,6 +128,11 @@ def config_item(ctx, fmt, D, C, dtype, compress, rep):
         # NIfTI stores vector images in ITK's 5-D layout with an intent code: one mechanism, one key
         ctx = KeyCtx(ctx, "nifti/multichannel")
     p = gen.rand_grid_params(rng, D, max_size=9, min_size=2, route="origin")
+    if rep % 2 == 1 and D == 3 and (C == 1 or rng.integers(0, 2)):
+        # a single slice / single row volume: one spatial axis of size 1 must survive the round trip
+        p["size"][int(rng.integers(0, D))] = 1
+        ctx.bucket("singleton_axis")
+        ctx.bucket(f"singleton_axis/{'nifti' if is_nifti(fmt) else 'other'}/C{min(C, 2)}")
     g = gen.make_grid(p)
     ref = gen.ref_grid(p)
     shape = tuple(p["size"][::-1])
@@ -268,3 +276,72 @@ def flow_item(ctx, fmt, D, axes, rep):
             else:
                 ctx.true("read_flow_shape", False, key=f"{kind}/shape", got=list(back.shape), want=[D] + list(shape), **info)
             ctx.true("write_left_field_unchanged", ff.axes() is Axes(axes), key=f"{kind}/receiver", **info)
+
+
+def sequence_item(ctx, D, rep):
+    r"""Reads in one process must not depend on what was read before: every file is read in a shuffled sequence
+    (twice) next to files of other formats, channel counts and geometries, and compared with SimpleITK's reading."""
+    import SimpleITK as sitk
+    import torch
+    from deepali.data.image import Image
+
+    rng = ctx.rng()
+    ctx.bucket("sequence")
+    files = []
+    with tempfile.TemporaryDirectory(prefix="vmon-c18-seq-") as tmp:
+        k = 0
+        for fmt in (".mha", ".mha", ".mhd", ".nrrd", ".nii.gz", ".mha"):
+            C = int(rng.choice([1, 1, 2, 3])) if not is_nifti(fmt) else 1
+            p = gen.rand_grid_params(rng, D, max_size=7, min_size=2, route="origin")
+            ref = gen.ref_grid(p)
+            shape = tuple(p["size"][::-1])
+            arr = rng.normal(size=(C,) + shape).astype(np.float32)
+            path = os.path.join(tmp, f"f{k}{fmt}")
+            writer = "deepali" if k % 2 == 0 else "sitk"
+            if writer == "deepali":
+                Image(torch.from_numpy(arr.copy()), gen.make_grid(p)).write(path)
+            else:
+                sarr = arr[0] if C == 1 else np.moveaxis(arr, 0, -1)
+                im_ = sitk.GetImageFromArray(np.ascontiguousarray(sarr), isVector=C > 1)
+                im_.SetOrigin([float(x) for x in ref.o])
+                im_.SetSpacing([float(x) for x in ref.s])
+                im_.SetDirection([float(x) for x in ref.R.flatten()])
+                sitk.WriteImage(im_, path)
+            files.append((path, fmt, C, writer))
+            k += 1
+        # a valid MetaImage with a minimal header: no Offset, no TransformMatrix, no channel count (defaults apply)
+        n_min = [int(v) for v in rng.integers(2, 6, size=D)]
+        raw = rng.normal(size=tuple(n_min[::-1])).astype("<f4")
+        head = f"ObjectType = Image\nNDims = {D}\nDimSize = {' '.join(str(v) for v in n_min)}\nElementType = MET_FLOAT\nElementSpacing = {' '.join(['1.5'] * D)}\nElementByteOrderMSB = False\nElementDataFile = LOCAL\n"
+        path = os.path.join(tmp, "minimal.mha")
+        with open(path, "wb") as f:
+            f.write(head.encode("ascii") + raw.tobytes())
+        files.append((path, ".mha", 1, "minimal-header"))
+        order = list(rng.permutation(len(files))) + list(rng.permutation(len(files)))
+        prev = None
+        first_minimal = None
+        for j in order:
+            path, fmt, C, writer = files[j]
+            info = dict(file=os.path.basename(path), writer=writer, C=C, D=D, read_before=prev)
+            with ctx.guard("Image.read in sequence", key=f"exc/sequence/{writer}", **info):
+                back = sitk.ReadImage(path)
+                ba = sitk.GetArrayFromImage(back)
+                ba = ba[None] if back.GetNumberOfComponentsPerPixel() == 1 else np.moveaxis(ba, -1, 0)
+                im = Image.read(path)
+                ok = ctx.true("sequence_read_shape", tuple(im.shape) == ba.shape, key=f"sequence/{writer}/shape", got=list(im.shape), want=list(ba.shape), **info)
+                if ok:
+                    ctx.true("sequence_read_values", bool((im.tensor().double().numpy() == ba.astype(np.float64)).all()), key=f"sequence/{writer}/values", **info)
+                if writer != "minimal-header":
+                    header_close(ctx, "sequence_read", im.grid(), back.GetSize(), np.array(back.GetOrigin()), np.array(back.GetSpacing()), np.array(back.GetDirection()), f"sequence/{writer}", **info)
+                else:
+                    # defaults for tags a header leaves out are the library's own choice (it centres the grid, ITK puts
+                    # the first sample at 0): outside the statement. What must hold: the same file reads the same way
+                    # whatever was read before it.
+                    g_ = im.grid()
+                    sig = (list(g_.size()), g_.origin().tolist(), g_.spacing().tolist(), g_.direction().flatten().tolist())
+                    if first_minimal is None:
+                        first_minimal = (sig, prev)
+                    else:
+                        ctx.true("minimal_header_reads_the_same_after_any_other_file", sig == first_minimal[0], key="sequence/minimal-header/repeatable", got=sig, first=first_minimal[0], first_read_after=first_minimal[1], **info)
+            prev = os.path.basename(path)
+        ctx.nontriv("sequence", D, rep)
